@@ -3,6 +3,7 @@
 package props
 
 import (
+	"bytes"
 	"fmt"
 	"math"
 	"math/rand"
@@ -383,7 +384,109 @@ func codecFloorFeatures() []string {
 	return out
 }
 
+// durationRoundTrips: google.protobuf.Duration is one of the types the schema reader supports; it has no entry in
+// the type model, so it gets a class of its own: every (seconds, nanos) shape in every position must come back
+// exactly (C01), and the canonical document must decode to exactly the message it was made from (C03).
+func durationRoundTrips(c *rt.C, prop string) {
+	src := map[string]string{"verif/dur/v1/dur.proto": `syntax = "proto3";
+package verif.dur.v1;
+import "google/protobuf/duration.proto";
+message D {
+  google.protobuf.Duration d = 1;
+  repeated google.protobuf.Duration ds = 2;
+  map<string, google.protobuf.Duration> dm = 3;
+  D next = 4;
+  oneof pick {
+    google.protobuf.Duration od = 5;
+    string os = 6;
+  }
+}
+`}
+	ct, err := compileProtoText(src)
+	if err != nil {
+		panic("harness: duration proto does not compile: " + err.Error())
+	}
+	cd := j5codec.NewCodec(j5codec.WithResolver(ct.Types))
+	md := ct.message("verif.dur.v1.D")
+	dmd := md.Fields().ByName("d").Message()
+	mk := func(sec int64, nanos int32) protoreflect.Value {
+		d := dynamicpb.NewMessage(dmd)
+		d.Set(dmd.Fields().ByName("seconds"), protoreflect.ValueOfInt64(sec))
+		d.Set(dmd.Fields().ByName("nanos"), protoreflect.ValueOfInt32(nanos))
+		return protoreflect.ValueOfMessage(d)
+	}
+	vals := [][2]int64{{0, 0}, {1, 0}, {0, 500000000}, {0, -500000000}, {-1, -500000000}, {1, 500000000}, {0, 1}, {0, -1}, {-1, 0}, {315576000000, 999999999}, {-315576000000, -999999999},
+		{0, 999999999}, {0, -999999999}, {123, 450000000}, {-123, -450000000}, {0, 10}, {0, -10}, {59, 100}, {-59, -100}, {1, 1}, {-1, -1}}
+	c.Feature(strings.ToLower(prop) + ":duration")
+	for _, v := range vals {
+		for pos := 0; pos < 5; pos++ {
+			m := dynamicpb.NewMessage(md)
+			switch pos {
+			case 0:
+				m.Set(md.Fields().ByName("d"), mk(v[0], int32(v[1])))
+			case 1:
+				l := m.Mutable(md.Fields().ByName("ds")).List()
+				l.Append(mk(v[0], int32(v[1])))
+				l.Append(mk(1, 0))
+			case 2:
+				m.Mutable(md.Fields().ByName("dm")).Map().Set(protoreflect.ValueOfString("k").MapKey(), mk(v[0], int32(v[1])))
+			case 3:
+				inner := dynamicpb.NewMessage(md)
+				inner.Set(md.Fields().ByName("d"), mk(v[0], int32(v[1])))
+				m.Set(md.Fields().ByName("next"), protoreflect.ValueOfMessage(inner))
+			case 4:
+				m.Set(md.Fields().ByName("od"), mk(v[0], int32(v[1])))
+			}
+			posName := []string{"singular", "array", "map", "nested", "oneof"}[pos]
+			det := map[string]any{"seconds": v[0], "nanos": v[1], "position": posName, "proto_sources": src}
+			c.Eval(rt.Hash("duration", fmt.Sprint(v, pos)), true)
+			var b []byte
+			var eerr error
+			c.Input([]byte(fmt.Sprintf("duration %v %s", v, posName)))
+			ok, pv, fn, st := rt.Guard(func() { b, eerr = cd.ProtoToJSON(m) })
+			c.EndBudget()
+			if !ok {
+				det["stack"] = st
+				c.Violate("duration/encode-panic/"+fn, fmt.Sprintf("encoding a duration of %ds %dns (%s) panicked: %v", v[0], v[1], posName, pv), det)
+				continue
+			}
+			if eerr != nil {
+				c.Violate("duration/encode-error/"+posName, fmt.Sprintf("a duration of %ds %dns (%s) cannot be encoded: %v", v[0], v[1], posName, eerr), det)
+				continue
+			}
+			det["json"] = string(b)
+			if _, perr := parseStrictJSON(b); perr != nil {
+				c.Violate("duration/invalid-json", fmt.Sprintf("the encoding of a duration of %ds %dns is not valid JSON: %s", v[0], v[1], b), det)
+				continue
+			}
+			m2 := dynamicpb.NewMessage(md)
+			var derr error
+			c.Input(b)
+			ok, pv, fn, st = rt.Guard(func() { derr = cd.JSONToProto(b, m2) })
+			c.EndBudget()
+			if !ok {
+				det["stack"] = st
+				c.Violate("duration/decode-panic/"+fn, fmt.Sprintf("decoding %s panicked: %v", b, pv), det)
+				continue
+			}
+			if derr != nil {
+				c.Violate("duration/decode-error", fmt.Sprintf("the codec rejects its own encoding %s of a duration of %ds %dns: %v", b, v[0], v[1], derr), det)
+				continue
+			}
+			// compared on the wire form: m is built from dynamic Duration messages, the decoder fills in generated ones
+			if !bytes.Equal(mustMarshal(m), mustMarshal(m2)) {
+				c.Violate("duration/differs/"+posName, fmt.Sprintf("a duration of %ds %dns (%s) is encoded as %s and comes back as %v", v[0], v[1], posName, b, msgText(m2)), det)
+				continue
+			}
+			c.Event("durations_round_tripped")
+		}
+	}
+}
+
 func runCodecProps(r *rt.Runner, prop string) {
+	if prop == "C01" {
+		r.Do("duration", func(c *rt.C) { durationRoundTrips(c, prop) })
+	}
 	// --- systematic: the sink type, every table entry of every kind in every position -----------
 	for cur := 0; cur < 14; cur++ {
 		r.Do(fmt.Sprintf("sink/sys/%d", cur), func(c *rt.C) {
